@@ -20,6 +20,10 @@ THEORIES = os.path.join(COQDIR, "theories")
 SCRATCH = os.path.join(VERIF, "_scratch")
 REPLAYS = os.path.join(VERIF, "replays")
 EVIDENCE = os.path.join(VERIF, "evidence")
+if os.environ.get("VERIF_REPO_SRC"):
+    # testing aid only (never set by a registered command): a run against a scratch worktree must not
+    # overwrite the evidence of /repo
+    EVIDENCE = os.path.join(VERIF, "_scratch", "evidence_wt")
 
 # Axioms of Coq's standard library that the development may depend on (named in DESIGN.md §10).
 ALLOWED_AXIOMS = {
